@@ -115,6 +115,22 @@ class SecurityControlField:
         raw |= self.service
         return raw.to_bytes(1, "big")
 
+    def __eq__(self, other: object) -> bool:
+        """Equal operator."""
+        return (
+            isinstance(other, SecurityControlField)
+            and self.tool_access == other.tool_access
+            and self.algorithm == other.algorithm
+            and self.system_broadcast == other.system_broadcast
+            and self.service == other.service
+        )
+
+    def __hash__(self) -> int:
+        """Hash function."""
+        return hash(
+            (self.tool_access, self.algorithm, self.system_broadcast, self.service)
+        )
+
     def __str__(self) -> str:
         """Return object as readable string."""
         return (
@@ -144,6 +160,25 @@ class SecureData:
     def __len__(self) -> int:
         """Return length of KNX Data Secure ASDU."""
         return 10 + len(self.secured_apdu)  # 10 = 6 bytes sequence number + 4 bytes MAC
+
+    def __eq__(self, other: object) -> bool:
+        """Equal operator."""
+        return (
+            isinstance(other, SecureData)
+            and self.sequence_number_bytes == other.sequence_number_bytes
+            and self.secured_apdu == other.secured_apdu
+            and self.message_authentication_code == other.message_authentication_code
+        )
+
+    def __hash__(self) -> int:
+        """Hash function."""
+        return hash(
+            (
+                self.sequence_number_bytes,
+                self.secured_apdu,
+                self.message_authentication_code,
+            )
+        )
 
     @staticmethod
     def init_from_plain_apdu(
